@@ -53,7 +53,7 @@ func vc12Seeds(dir string, rng *vh.Rng) ([]c12h.Seed, error) {
 	var seeds []c12h.Seed
 	type shape struct {
 		vs, nkeys, items uint
-		nmeta          int
+		nmeta            int
 	}
 	shapes := []shape{{36, 3, 3, 4}, {9, 5, 5, 1}, {1, 1, 1, 0}, {8, 30, 30, 2}, {252, 2, 2, 1}, {36, 12, 25000, 3}}
 	for i, sh := range shapes {
@@ -290,11 +290,23 @@ func vc12Flags(flags map[string]bool) string {
 	return fmt.Sprintf("(check_sized (mk_sized_guards %s %s %s %s %s))", g("g_hdr_len"), g("g_hdr_total64"), g("g_hdr_incr"), g("g_value_size"), g("g_hash_len"))
 }
 
-func TestVerif_C12(t *testing.T) {
-	c12h.Run(t, &c12h.Part{
-		Name: "ci-sized",
-		Rule: "compactindexsized.Open / DB.Lookup / Bucket.Load on mutated valid index files: no panic, allocation <= 8*len+256KiB (+ one batch), no hang; outcome class = Coq model",
+func vc12Part() *c12h.Part {
+	return &c12h.Part{
+		Name:  "ci-sized",
+		Rule:  "compactindexsized.Open / DB.Lookup / Bucket.Load on mutated valid index files: no panic, allocation <= 8*len+256KiB (+ one batch), no hang; outcome class = Coq model",
 		Seeds: vc12Seeds, Gen: vc12Gen, Exec: vc12Exec, Budget: vc12Budget, Witnesses: vc12Witnesses,
 		CoqImports: []string{"YF.C12_Check"}, CoqType: "sized_case", CoqChecker: vc12Flags, CoqCase: vc12CoqCase, MaxCoq: 500,
-	})
+		Fuzz: vc12Fuzz,
+	}
+}
+
+func TestVerif_C12(t *testing.T) { c12h.Run(t, vc12Part()) }
+
+// native fuzz target (thorough tier; run by c12h.Run from an instrumented copy of the test binary)
+func FuzzVerifC12(f *testing.F) { c12h.FuzzBody(f, vc12Part()) }
+
+func vc12Fuzz(data []byte, sel uint64, seeds []c12h.Seed) *c12h.Input {
+	s := &seeds[int(sel%uint64(len(seeds)))]
+	entries := []string{"open", "lookup", "load", "prefetch"}
+	return &c12h.Input{Entry: entries[(sel/97)%4], Label: "fuzz", Data: data, Keys: s.Keys, Aux: []uint64{(sel / 389) % uint64(len(s.Keys))}}
 }
